@@ -15,7 +15,8 @@ EXHAUSTIVE = {"quick": False, "thorough": False}
 TRUSTED_BASE = ["Spec/GbStrict.lean: the strict column reader standing for 'an independent reader' (typed from the NCBI flat-file description)",
                 "mitchellh/go-wordwrap v1.0.0 transcribed by hand (Base/StrBuild.lean wrapGo), tied by correspondence only",
                 "ASCII restriction: Go byte lengths vs runes are outside the model",
-                "Model/Location.lean (property C02) supplies BuildLocationString and, for the domain predicate only, parseLocation"]
+                "Model/Location.lean (property C02) supplies BuildLocationString and, for the domain predicate only, parseLocation",
+                "Model/Genbank.lean + Lemmas/Genbank*.lean (property C01): the parser model and its composition theorem parseLoop_layout, on which parse_build_partial rests"]
 ASSUMPTIONS = ["all text is printable ASCII",
                "a Go map is an association list with distinct keys; its iteration order is a universally quantified parameter of build",
                "'equal locations' is read modulo the partial markers of join/complement NODES (derived from the spans below by the parser, never read by the writer)",
@@ -23,8 +24,13 @@ ASSUMPTIONS = ["all text is printable ASCII",
                "non-empty blank-free locus name, a numeric or empty length, a molecule type from poly's own list or none; metadata is single-spaced; "
                "extra keyword names are not the writer's own keywords and fit the keyword field; feature keys fit columns 6-20; reference numbers "
                "are positions; a cached location text denotes the record's location; qualifier values do not begin or end with a quotation mark"]
-PARTIAL = ["parse_build (parse (build x) ≈ ok x over the PARSER MODEL of property C01): stated and proved only as far as Props/C03.lean says; "
-           "until then it rests on correspondence: the real Parse(Build(x)) ≈ x is judged on every case"]
+PARTIAL = ["parse_build (WFSeq x → parse (build x o) ≈ ok x over the parser model of property C01): proved as parse_build_partial under the "
+           "decidable hypothesis `covered x` = wfSeq x AND the record is expressible in C01's abstract record type (molecule type DNA/mRNA/tRNA/rRNA, "
+           "one topology, a division, a dated LOCUS line whose length field equals the number of bases, extra keywords of <= 10 capitals, "
+           "qualifier keys over [a-z0-9_], no quotation mark in values) AND every REFERENCE line has a range and fits on one line. Missing: C01's "
+           "composition theorem is stated for that record type only; the wrapped REFERENCE line. On the remaining in-domain records the clause "
+           "rests on correspondence: the real Parse(Build(x)) ≈ x is judged on every case, and the parser model is compared with the real parser "
+           "on every written text (class tag /pb = case inside the theorem's domain)"]
 
 MOLTYPES = ["DNA", "genomic DNA", "genomic RNA", "mRNA", "tRNA", "rRNA", "other RNA", "other DNA",
             "transcribed RNA", "viral cRNA", "unassigned DNA", "unassigned RNA"]
@@ -146,7 +152,8 @@ def loc_text(t, insdc):
 
 # ---- records
 
-def gen_record(r, maxseq, maxfeat, maxmeta, cached_mode, shadow=False):
+def gen_record(r, maxseq, maxfeat, maxmeta, cached_mode, shadow=False, covered=False):
+    """covered=True: a record in the domain of theorem parse_build_partial (C01's abstract record type)"""
     n = loglen(r, 1, maxseq)
     alphabet = r.choice(["acgt", "acgt", "ACGT", "acgtnrykmswbdhv", "ACGTacgtNn", "acgu"])
     seq = randword(r, alphabet, n)
@@ -157,12 +164,16 @@ def gen_record(r, maxseq, maxfeat, maxmeta, cached_mode, shadow=False):
     if shadow:
         # names holding a molecule type / division / date / topology token (repaired defect C03-locus-search)
         name = r.choice(["pDNA3", "SYNB1", "mRNAx", "PRIMER7", "x01-JAN-2001y", "linear", "circular", "genomicDNA", "tRNA"])
+    if covered:
+        mol = r.choice(["DNA", "mRNA", "tRNA", "rRNA"])
     u = r.random()
+    if covered:
+        u = r.random() * 0.9
     rec = {
         "name": name,
-        "seqlen": str(n) if r.random() < 0.85 else r.choice(["", "7", "42", "123456"]),
-        "mol": mol, "div": r.choice(DIVISIONS + [""]),
-        "date": "%02d-%s-%04d" % (r.randint(1, 31), r.choice(MONTHS), r.randint(1980, 2030)) if r.random() < 0.9 else "",
+        "seqlen": str(n) if (covered or r.random() < 0.85) else r.choice(["", "7", "42", "123456"]),
+        "mol": mol, "div": r.choice(DIVISIONS + ([] if covered else [""])),
+        "date": "%02d-%s-%04d" % (r.randint(1, 31), r.choice(MONTHS), r.randint(1980, 2030)) if (covered or r.random() < 0.9) else "",
         "coding": "bp", "circ": u < 0.4, "lin": 0.4 <= u < 0.9,
         "defi": text(r, maxmeta), "acc": text(r, 40), "ver": text(r, 40), "kw": text(r, maxmeta // 4),
         "src": text(r, maxmeta // 2, kw=r.random() < 0.15), "org": text(r, maxmeta),
@@ -171,13 +182,15 @@ def gen_record(r, maxseq, maxfeat, maxmeta, cached_mode, shadow=False):
     for i in range(r.choice([0, 0, 1, 1, 2, 3, 5])):
         refs.append((str(i + 1), text(r, maxmeta // 2, 0.2, kw=r.random() < 0.15), text(r, maxmeta // 2, 0.2, kw=r.random() < 0.15),
                      text(r, 200, 0.2), text(r, 12, 0.4), text(r, maxmeta // 2, 0.5),
-                     "" if r.random() < 0.15 else
-                     ("(bases %d to %d)" % (r.randint(1, n), n) if r.random() < 0.85 else
+                     "" if (r.random() < 0.15 and not covered) else
+                     ("(bases %d to %d)" % (r.randint(1, n), n) if (covered or r.random() < 0.85) else
                       "(bases " + "; ".join("%d to %d" % (a, a + 9) for a in range(1, r.choice([60, 100, 400]), 20)) + ")")))
     rec["refs"] = refs
     keys = r.sample(OTHER_KEYS + [randword(r, "ABCDEFGHIJKLMNOPQRSTUVWXYZ", r.randint(1, 11)) for _ in range(2)], r.choice([0, 0, 1, 1, 2, 4]))
     keys = [k for k in dict.fromkeys(keys) if k not in ("LOCUS DEFINITION ACCESSION VERSION KEYWORDS SOURCE ORGANISM REFERENCE AUTHORS "
                                                           "TITLE JOURNAL PUBMED REMARK FEATURES ORIGIN").split()]
+    if covered:
+        keys = [k for k in keys if len(k) <= 10 and k.isalpha() and k.isupper()]
     rec["other"] = [(k, text(r, maxmeta, 0.1, kw=r.random() < 0.15)) for k in keys]
     feats = []
     nf = r.choice([0, 1, 2, 3, 5, 8]) if r.random() < 0.8 else r.randint(0, maxfeat)
@@ -186,7 +199,9 @@ def gen_record(r, maxseq, maxfeat, maxmeta, cached_mode, shadow=False):
         cached = {"all": True, "none": False, "mixed": r.random() < 0.5}[cached_mode]
         insdc = r.random() < 0.3
         qk = r.sample(QUAL_KEYS, r.randint(0, 8))
-        attrs = [(k, qual_value(r, k)) for k in qk]
+        if covered:
+            qk = [k for k in qk if k == k.lower()]
+        attrs = [(k, qual_value(r, k).replace('"', "'") if covered else qual_value(r, k)) for k in qk]
         feats.append((r.choice(FEATURE_KEYS), loc_text(t, insdc) if cached else "", loc_ser(t, cached or r.random() < 0.5), attrs, t))
     rec["feats"] = feats
     rec["seq"] = seq
@@ -342,10 +357,11 @@ def cases(seed, tier):
     for i in range(nrec):
         mode = ["none", "all", "mixed"][i % 3]
         big = (i % 40 == 7)
-        R = gen_record(r, maxseq, 40 if (big or not quick) else 12, maxmeta if i % 3 else 300, mode, shadow=(i % 12 == 11))
+        R = gen_record(r, maxseq, 40 if (big or not quick) else 12, maxmeta if i % 3 else 300, mode, shadow=(i % 12 == 11),
+                       covered=(i % 2 == 0))
         yield ["rec"] + rec_fields(R)
     for i in range(nimg):
-        R = gen_record(r, maxseq // 2, 40 if not quick else 10, maxmeta if i % 4 == 0 else 300, "all")
+        R = gen_record(r, maxseq // 2, 40 if not quick else 10, maxmeta if i % 4 == 0 else 300, "all", covered=(i % 2 == 0))
         yield ["img", layout(r, R, r.choice(["ncbi", "ncbi", "poly"]))]
     # the long records the property names
     for n in ([10000] if quick else [60000, 99999, 100000]):
@@ -369,8 +385,9 @@ TECHNIQUE = ("Lean 4 proof over a transcription of genbank.Build (incl. go-wordw
 LEVEL_TEXT = ("Determinism (all map iteration orders), the cached-or-structural location clause, the wrap/unwrap inversion for single-spaced "
               "text of any length and the layout clause (strictRead (build x o) = some (abs x) for every record of the decidable layout domain: "
               "any number of blocks, references, features, qualifiers, any text and sequence length) are kernel-checked theorems about the model; "
-              "the write-then-read clause over the real parser is judged on every case (real Parse(real Build(x)) ≈ x, Write/Read through a "
-              "file) because the parser model belongs to property C01.")
+              "the write-then-read clause is a theorem over the parser model of property C01 for the records C01's abstract record type "
+              "expresses (parse_build_partial) and is judged on the REAL parser for every case (real Parse(real Build(x)) ≈ x, Write/Read "
+              "through a file); the parser model itself is compared with the real parser on every written text.")
 LEVEL_NOTE = ("Trusted: Lean kernel; harness + pm_C03 judge; the hand transcription of go-wordwrap and of Build (tied by correspondence on every "
               "case, byte for byte); the strict reader as the meaning of 'independent reader'; ASCII.")
 
